@@ -18,13 +18,32 @@ def _classes():
     return {"BinaryTreeNode": BinaryTreeNode, "MathExpression": MathExpression}
 
 
-def check_case(shape, index, clsname="BinaryTreeNode"):
+IDMODES = ("unique", "all-equal", "by-depth")
+
+
+def _relabel(root, mode):
+    """node ids are payload, not identity: clones share ids, so rotation must not depend on them"""
+    if mode == "unique":
+        return
+
+    def rec(n, d):
+        if n is None:
+            return
+        n.id = "same" if mode == "all-equal" else f"d{d}"
+        rec(n.left, d + 1)
+        rec(n.right, d + 1)
+
+    rec(root, 0)
+
+
+def check_case(shape, index, clsname="BinaryTreeNode", idmode="unique"):
     """Rotate the index-th node (pre-order) of a fresh tree; return [(core, detail)]."""
     cls = _classes()[clsname]
     root = S.build(shape, cls)
     nodes = S.preorder(root)
+    _relabel(root, idmode)
     node = nodes[index]
-    before = [n.id for n in S.inorder(root)]
+    before = [id(n) for n in S.inorder(root)]
     parent = node.parent
     grand = parent.parent if parent is not None else None
     pside = None
@@ -33,7 +52,7 @@ def check_case(shape, index, clsname="BinaryTreeNode"):
     nside = None
     if parent is not None:
         nside = "left" if parent.left is node else "right"
-    snap = [(n.id, id(n.left), id(n.right), id(n.parent)) for n in nodes]
+    snap = [(id(n), id(n.left), id(n.right), id(n.parent)) for n in nodes]
     out = []
     try:
         ret = node.rotate()
@@ -42,7 +61,7 @@ def check_case(shape, index, clsname="BinaryTreeNode"):
     if ret is not node:
         out.append(("return-value", "rotate() did not return the node"))
     if parent is None:
-        after = [(n.id, id(n.left), id(n.right), id(n.parent)) for n in nodes]
+        after = [(id(n), id(n.left), id(n.right), id(n.parent)) for n in nodes]
         if after != snap:
             out.append(("root-rotation-changes-tree", "rotating the root modified links"))
         return out
@@ -54,9 +73,10 @@ def check_case(shape, index, clsname="BinaryTreeNode"):
     probs = link_audit(new_root)
     if probs:
         out.append(("links-inconsistent", "; ".join(probs[:3])))
-    after = [n.id for n in S.inorder(new_root)] if not probs else None
+    after = [id(n) for n in S.inorder(new_root)] if not probs else None
     if after is not None and after != before:
-        out.append(("inorder-changed", f"{before} -> {after}"))
+        pos = {b: i for i, b in enumerate(before)}
+        out.append(("inorder-changed", f"in-order positions after rotation: {[pos.get(a, '?') for a in after]}"))
     if parent.parent is not node:
         out.append(("node-not-above-parent", "old parent's parent is not the rotated node"))
     expect_child = "right" if nside == "left" else "left"
@@ -76,19 +96,96 @@ def check_case(shape, index, clsname="BinaryTreeNode"):
     return res
 
 
+def check_regroup(text):
+    """The associative rule is a rotation: applied in place at every node where it reports applicable, the
+    whole tree must be exactly what node.rotate() produces on an identical tree - same in-order sequence of
+    node ids, same links, node above its old parent."""
+    from ..explore import rewrite as RW
+    from .. import sig as SG
+    from ..oracle.audit import link_audit as audit_links
+
+    out = []
+    try:
+        probe = RW.parse(text)
+    except Exception:  # noqa
+        return out
+    rule = RW.config("AG")
+    for index, n in enumerate(RW.inorder(probe)):
+        if not rule.can_apply_to(n):
+            continue
+        t1 = RW.parse(text).clone()
+        t2 = t1.clone()  # same ids as t1
+        n1 = RW.inorder(t1)[index]
+        n2 = RW.inorder(t2)[index]
+        ids_before = [x.id for x in RW.inorder(t1)]
+        try:
+            res = rule.apply_to(n1).result
+        except Exception as e:  # noqa
+            out.append(("regroup-raises:" + type(e).__name__, f"{text!r} at in-order {index}: {e!r}"))
+            continue
+        n2.rotate()
+        r1, r2 = RW.get_root(res), RW.get_root(n2)
+        probs = audit_links(r1)
+        if probs:
+            out.append(("regroup-links-inconsistent", f"{text!r} at in-order {index}: {probs[0]}"))
+            continue
+        ids1 = [x.id for x in RW.inorder(r1)]
+        if ids1 != ids_before:
+            out.append(("regroup-changes-inorder-sequence", f"{text!r} at in-order {index}: node order {ids_before} -> {ids1}"))
+        elif SG.sig(r1) != SG.sig(r2) or [x.id for x in RW.inorder(r2)] != ids1:
+            out.append(("regroup-is-not-the-rotation", f"{text!r} at in-order {index}: {SG.show(SG.sig(r1))} vs rotate() {SG.show(SG.sig(r2))}"))
+        else:
+            # the very node objects must sit where rotation puts them: compare ids position by position
+            def layout(r):
+                return [(x.id, x.left.id if x.left is not None else None, x.right.id if x.right is not None else None) for x in RW.inorder(r)]
+            if layout(r1) != layout(r2):
+                out.append(("regroup-is-not-the-rotation", f"{text!r} at in-order {index}: same text, other node objects moved"))
+    seen, res_ = set(), []
+    for c, d in out:
+        if c not in seen:
+            seen.add(c)
+            res_.append((c, d))
+    return res_
+
+
+def regroup_texts():
+    from ..gen import exprs as X
+
+    base = X.same_op_groupings(3, ["2", "x", "y", "4x"]) + X.same_op_groupings(4, ["2", "x", "y"])
+    out = []
+    for b in base:
+        out += [b, f"-({b})", f"sgn({b})", f"({b}) - w", f"w - ({b})", f"2^({b})", f"({b}) / w", f"w = ({b})", f"(w - ({b})) * q",
+                f"-(w + sgn({b}))"]
+    return out
+
+
+_RT = []
+
+
 def _work(task):
+    if task[0] == "regroup":
+        acc = Acc()
+        for i in range(task[1], task[2]):
+            acc.count("regroup_texts")
+            for core, detail in check_regroup(_RT[i]):
+                acc.violation(core, {"regroup": _RT[i]}, detail)
+        return acc
     n, lo, hi, clsname = task
     acc = Acc()
     shp = S.shapes(n)
     for si in range(lo, hi):
         shape = shp[si]
         for i in range(n):
-            acc.count("rotations")
-            res = check_case(shape, i, clsname)
-            if i > 0:
-                acc.count("nonroot")
-            for core, detail in res:
-                acc.violation(core, {"shape": S.show(shape), "index": i, "cls": clsname}, detail)
+            for idmode in IDMODES:
+                if idmode != "unique" and (n > BOUND["quick"] - 1 or clsname != "BinaryTreeNode"):
+                    continue
+                acc.count("rotations")
+                res = check_case(shape, i, clsname, idmode)
+                if i > 0:
+                    acc.count("nonroot")
+                for core, detail in res:
+                    acc.violation(core + ("" if idmode == "unique" else f"|ids={idmode}"),
+                                  {"shape": S.show(shape), "index": i, "cls": clsname, "idmode": idmode}, detail)
         if si == lo:
             acc.sample({"shape": S.show(shape), "rotated": "every node", "cls": clsname})
     return acc
@@ -104,6 +201,8 @@ def run(tier, seed):
                 continue
             for lo, hi in par.chunks(total, 16 if total > 2000 else 1):
                 tasks.append((n, lo, hi, clsname))
+    _RT[:] = regroup_texts()
+    tasks += [("regroup", lo, hi) for lo, hi in par.chunks(len(_RT), 32)]
     k = seed % len(tasks)
     tasks = tasks[k:] + tasks[:k]
     acc = merge_all(par.pmap(_work, tasks))
@@ -113,7 +212,11 @@ def run(tier, seed):
         "distinct_nontrivial": acc.n["nonroot"],
         "rule": f"all binary tree shapes with 1..{N} nodes (Catalan numbers, {nshapes} shapes) x every node; "
                 "each (shape,node) pair is distinct by construction; non-trivial = the node is not the root "
-                "(a real rotation happens); root rotations are checked for 'changes nothing'",
+                "(a real rotation happens); root rotations are checked for 'changes nothing'; shapes up to 7 nodes are also rotated "
+                "with all-equal and depth-based node ids (ids are payload that clones share, not identity); in addition the "
+                "associative rule is applied at every applicable node of same-operator groupings in 10 contexts and must equal "
+                "node.rotate() on an identical tree, node for node",
+        "regroup_texts": acc.n["regroup_texts"],
         "exhaustive": True,
         "bound": {"max_nodes": N},
     }
@@ -121,4 +224,8 @@ def run(tier, seed):
 
 
 def replay(case):
-    return check_case(S.parse(case["shape"]), case["index"], case.get("cls", "BinaryTreeNode"))
+    if "regroup" in case:
+        return check_regroup(case["regroup"])
+    mode = case.get("idmode", "unique")
+    return [(c + ("" if mode == "unique" else f"|ids={mode}"), d)
+            for c, d in check_case(S.parse(case["shape"]), case["index"], case.get("cls", "BinaryTreeNode"), mode)]
